@@ -13,5 +13,6 @@ CONSTANTS
 INIT TInit
 NEXT TNext
 VIEW TView
+CONSTRAINT Fresh
 POSTCONDITION Report
 CHECK_DEADLOCK FALSE
